@@ -78,7 +78,7 @@ func ParallelRoundTrips(workers, iters int, seed uint64) (evals int, fails []Par
 }
 
 func extraParallel(ctx *core.Ctx) (int, string, []core.ExtraFailure) {
-	iters := 6000 * ctx.Escalate
+	iters := 2500 * ctx.Escalate
 	if ctx.Tier == "thorough" {
 		iters = 60000
 	}
